@@ -36,7 +36,8 @@ META = dict(
               "(FastAPI introspection + ast) + exhaustive differential correspondence through an in-process test client",
 )
 MODULE = "OPM.Properties.C32"
-REQUIRED = ["OPM.C32.C32_partial", "OPM.C32.C32_counterexample", "OPM.C32.guarded_endpoint_refuses",
+REQUIRED = ["OPM.C32.roles_from_last_uodinfo", "OPM.C32.run_events_preserve_roles", "OPM.C32.history_protection",
+            "OPM.C32.stored_run_carries_unit_roles", "OPM.C32.C32_partial", "OPM.C32.C32_counterexample", "OPM.C32.guarded_endpoint_refuses",
             "OPM.C32.guarded_endpoint_admits", "OPM.C32.no_roles_required_open", "OPM.C32.listing_only_accessible",
             "OPM.C32.listing_contains_accessible", "OPM.C32.non_lsp_routes_guarded", "OPM.C32.unguarded_routes",
             "OPM.C32.lacking_every_role_no_access", "OPM.C32.access_iff"]
@@ -297,41 +298,65 @@ def cases_for(world: dict, rows: list[dict], user_sets, rng=None, sample: float 
 
 # ----------------------------------------------------------------------------------------------------
 
-def oracle(app: App, rows, c, status, text, before, after) -> list[Failure]:
-    """The property, stated over what the implementation did (independent of the Lean model)."""
+def listing_ids(row: dict, status: int, text: str) -> list[str] | None:
+    if status != 200:
+        return None
+    data = json.loads(text)
+    t = row["target"]
+    if t == "unitsWithRecent":
+        return [x["id"] for x in data]
+    if t == "unitsOnline":
+        return [x["process_unit"]["id"] for x in data]
+    return [x["run_id"] for x in data]
+
+
+def static_truth(w: dict) -> dict:
+    """What the objects of a hand-made world require: an online unit's own roles (a stale recent-engine row of
+    the same id does not count), a recent engine's row otherwise, a run's row."""
+    units = {i: r for i, r in reversed(w["units"])}
+    offline = {i: r for i, r in reversed(w["recent"]) if i not in units}
+    runs = {i: r for i, r in reversed(w["runs"])}
+    return {"units": units, "offline": offline, "runs": runs, "markers": {}}
+
+
+def oracle(rows, c, status, text, before, after, truth) -> list[Failure]:
+    """The property, stated over what the implementation did (independent of the Lean model).
+    truth = {units: {id: roles of its last UodInfo}, offline: {id: roles when it disconnected},
+             runs: {run id: roles of its unit when the run was stored}, markers: {id: [strings that are its data]}}"""
     row = rows[c["route"]]
-    w = c["world"]
     U = set(c["user"])
     fails = []
     t = row["target"]
     h = row["handler"]
     if t in ("unitsWithRecent", "unitsOnline", "runs"):
-        if status != 200:
+        ids = listing_ids(row, status, text)
+        if ids is None:
             return fails
-        shown = canon(row, status, text)
-        ids = [] if shown == "list ~" else shown[5:].split(";")
-        pools = (w["units"] + w["recent"]) if t == "unitsWithRecent" else w["units"] if t == "unitsOnline" else w["runs"]
-        for oid, req in pools:
-            R = set(req)
-            rows_same_id = [set(r) for i, r in pools if i == oid]
-            if enc(oid) in ids and all(r and not (r & U) for r in rows_same_id):
-                fails.append(Failure(f"listing-shows-inaccessible:{h}", c, f"{oid} requires {sorted(R)}, user has {sorted(U)}"))
-        online = {i for i, _ in w["units"]}
-        for oid, req in (w["units"] if t != "runs" else w["runs"]):
-            if not req and enc(oid) not in ids:
+        if t == "runs":
+            known = truth["runs"]
+            must_show = [i for i, r in truth["runs"].items() if not r]
+        else:
+            known = {**truth["offline"], **truth["units"]}
+            must_show = [i for i, r in truth["units"].items() if not r]
+            if t == "unitsWithRecent":
+                must_show += [i for i, r in truth["offline"].items() if not r]
+        for oid in ids:
+            R = set(known.get(oid) or [])
+            if R and not (R & U):
+                fails.append(Failure(f"listed-without-role:{h}", c,
+                                     f"{row['path']} lists {oid}, which requires {sorted(R)}, to a user with {sorted(U)}"))
+        for oid in must_show:
+            if oid not in ids:
                 fails.append(Failure(f"listing-hides-open-object:{h}", c, f"{oid} requires no roles but is not listed"))
-        if t == "unitsWithRecent":
-            for oid, req in w["recent"]:
-                if not req and oid not in online and enc(oid) not in ids:
-                    fails.append(Failure(f"listing-hides-open-object:{h}", c, f"recent engine {oid} requires no roles"))
         return fails
-    pool = dict((i, r) for i, r in reversed(w["units"] if t == "unit" else w["runs"]))
+    pool = truth["units"] if t == "unit" else truth["runs"]
     if c["id"] not in pool:
         return fails
     R = set(pool[c["id"]])
     lacks = bool(R) and not (R & U)
     if lacks:
-        if marker(c["id"]) in text:
+        leaked = [m for m in truth["markers"].get(c["id"], [marker(c["id"])]) if m in text]
+        if leaked:
             key = K_GRAMMAR if h == "get_pcode_tm_grammar" else K_SOCKET if h == "lsp_server_endpoint" else f"data-readable-without-role:{h}"
             fails.append(Failure(key, c, f"{row['method']} {row['path']} for {c['id']} (requires {sorted(R)}) by a user with "
                                          f"{sorted(U)} returned its data: status {status} {text[:160]}"))
@@ -341,6 +366,226 @@ def oracle(app: App, rows, c, status, text, before, after) -> list[Failure]:
     elif not R and status in (401, 403):
         fails.append(Failure(f"open-object-refused:{h}", c, f"{c['id']} requires no roles but {row['path']} answered {status}"))
     return fails
+
+
+# ----------------------------------------------------------------------------------------------------
+# histories: the world is produced by engine events going through the real message handlers
+
+class Engine:
+    """Plays the engine side: RegisterEngineMsg / UodInfoMsg / TagsUpdatedMsg / MethodMsg / RunStartedMsg /
+    RunLogMsg / RunStoppedMsg / disconnect, through AggregatorMessageHandlers, as the dispatcher would call them."""
+
+    def __init__(self, app: App):
+        from unittest.mock import AsyncMock
+        from openpectus.aggregator.aggregator_message_handlers import AggregatorMessageHandlers
+        self.app = app
+        self.agg = app.agg
+        self.h = AggregatorMessageHandlers(self.agg)
+        self.agg.from_engine.publisher = AsyncMock()           # frontend pubsub / webpush are not under test
+        self.agg.from_engine.webpush_publisher = AsyncMock()
+
+    @staticmethod
+    def uid(label: str) -> str:
+        return f"{label}_uod"          # create_engine_id(computer_name=label, uod_name="uod")
+
+    def _do(self, *coros):
+        import asyncio
+
+        async def go():
+            out = []
+            for c in coros:
+                out.append(await c)
+            await asyncio.sleep(0)
+            return out
+        return asyncio.run(go())
+
+    def apply(self, ev: list) -> None:
+        import openpectus.protocol.engine_messages as EM
+        import openpectus.protocol.models as PM
+        from openpectus import __version__
+        kind, label = ev[0], ev[1]
+        uid = self.uid(label)
+        mk = marker(uid)
+        if kind in ("connect", "uod"):
+            roles = ev[2]
+            msgs = []
+            if kind == "connect":
+                reply = self._do(self.h.handle_RegisterEngineMsg(EM.RegisterEngineMsg(
+                    computer_name=label, uod_name="uod", uod_author_name="auth" + mk, uod_author_email=mk + "@x",
+                    uod_filename="f" + mk, location="loc" + mk, engine_version=__version__)))[0]
+                assert reply.success and reply.engine_id == uid, reply
+            e = self.agg._engine_data_map.get(uid)
+            run_id = e.run_data.run_id if e is not None and e.has_run() else None
+            msgs.append(self.h.handle_UodInfoMsg(EM.UodInfoMsg(
+                engine_id=uid,
+                readings=[PM.ReadingInfo(discriminator="reading", tag_name="Tag", valid_value_units=["L"],
+                                         entry_data_type=None, commands=[], command_options=None)],
+                commands=[PM.CommandInfo(name="Cmd" + mk, docstring="doc" + mk)],
+                uod_definition=PM.UodDefinition(
+                    commands=[PM.CommandDefinition(name="Cmd" + mk, validator=None, docstring="doc" + mk)],
+                    system_commands=[PM.CommandDefinition(name="Watch", validator=None, docstring="w"),
+                                     PM.CommandDefinition(name="Mark", validator=None, docstring="m")],
+                    tags=[PM.TagDefinition(name="Tag", unit="L")]),
+                plot_configuration=PM.PlotConfiguration(process_value_names_to_annotate=[mk], color_regions=[],
+                                                        sub_plots=[], x_axis_process_value_names=[mk]),
+                hardware_str="hw" + mk, required_roles=set(roles), data_log_interval_seconds=1.0)))
+            if kind == "connect":
+                msgs.append(self.h.handle_TagsUpdatedMsg(EM.TagsUpdatedMsg(engine_id=uid, run_id=run_id, tags=[
+                    PM.TagValue(name="Tag", tick_time=1.0, value=42.5, value_unit="L", value_formatted=mk + "L"),
+                    PM.TagValue(name="System State", tick_time=1.0, value="Stopped", value_unit=None)])))
+                msgs.append(self.h.handle_MethodMsg(EM.MethodMsg(engine_id=uid, method=PM.Method(version=0, lines=[
+                    PM.MethodLine(id="l1", content="Mark: " + mk), PM.MethodLine(id="l2", content="")]))))
+                msgs.append(self.h.handle_ErrorLogMsg(EM.ErrorLogMsg(engine_id=uid, log=PM.ErrorLog(entries=[
+                    PM.ErrorLogEntry(message="err" + mk, created_time=1.0, severity=40)]))))
+            self._do(*msgs)
+        elif kind == "start":
+            run = ev[2]
+            self._do(self.h.handle_RunStartedMsg(EM.RunStartedMsg(engine_id=uid, run_id=run, started_tick=1.7e9)),
+                     self.h.handle_RunLogMsg(EM.RunLogMsg(engine_id=uid, id="x", run_id=run, runlog=self._runlog(run))))
+        elif kind == "stop":
+            run = ev[2]
+            self._do(self.h.handle_RunStoppedMsg(EM.RunStoppedMsg(
+                engine_id=uid, run_id=run, runlog=self._runlog(run), method_state=PM.MethodState.empty(),
+                archive="archive" + marker(run), archive_filename="a" + marker(run) + ".csv")))
+        elif kind == "disc":
+            self._do(self.h.handle_EngineDisconnected(uid))
+        else:
+            raise ValueError(kind)
+
+    @staticmethod
+    def _runlog(run: str):
+        import openpectus.protocol.models as PM
+        return PM.RunLog(lines=[PM.RunLogLine(id="line1", command_name="Mark: " + marker(run), start=1.0, end=None,
+                                              progress=None, start_values=[], end_values=[])])
+
+    def state(self) -> str:
+        """The aggregator's state in the model's vocabulary (engine map, RecentEngines, RecentRuns)."""
+        from sqlalchemy import select
+        from openpectus.aggregator.data import database
+        import openpectus.aggregator.data.models as DMdl
+
+        def rs(roles):
+            return roles_wire(sorted(set(roles or [])))
+
+        def run(r):
+            return enc(r) if r is not None else "~"
+        online = [f"{enc(e.engine_id)}:{rs(e.required_roles)}:{run(e.run_data.run_id if e.has_run() else None)}"
+                  for e in self.agg._engine_data_map.values()]
+        with database.create_scope():
+            ses = database.scoped_session()
+            recent = [f"{enc(r.engine_id)}:{rs(r.required_roles)}:{run(r.run_id)}"
+                      for r in ses.scalars(select(DMdl.RecentEngine).order_by(DMdl.RecentEngine.id)).all()]
+            runs = [f"{enc(r.run_id)}:{rs(r.required_roles)}"
+                    for r in ses.scalars(select(DMdl.RecentRun).order_by(DMdl.RecentRun.id)).all()]
+        return "\t".join("|".join(x) if x else "~" for x in (online, recent, runs))
+
+
+class Truth:
+    """The specification side of a history, tracked independently of the implementation and of the Lean model:
+    a unit requires what its last UodInfo said; a stored run what its unit required when it was stored."""
+
+    def __init__(self):
+        self.units: dict[str, list] = {}      # connected units
+        self.offline: dict[str, list] = {}
+        self.active: dict[str, str] = {}      # unit -> run id (survives a disconnect: the aggregator restores it)
+        self.runs: dict[str, list] = {}
+        self.markers: dict[str, list] = {}
+
+    def apply(self, ev: list) -> None:
+        kind, uid = ev[0], Engine.uid(ev[1])
+        self.markers.setdefault(uid, [marker(uid)])
+        if kind == "connect":
+            self.units[uid] = sorted(set(ev[2]))
+            self.offline.pop(uid, None)
+        elif kind == "uod":
+            if uid in self.units:
+                self.units[uid] = sorted(set(ev[2]))
+        elif kind == "start" and uid in self.units:
+            cur = self.active.get(uid)
+            if cur is not None and cur != ev[2]:
+                self._store(uid, cur)
+            self.active[uid] = ev[2]
+        elif kind == "stop" and uid in self.units and uid in self.active:
+            self._store(uid, self.active.pop(uid))
+        elif kind == "disc" and uid in self.units:
+            self.offline[uid] = self.units.pop(uid)
+
+    def _store(self, uid: str, run: str) -> None:
+        self.runs.setdefault(run, self.units[uid])
+        self.markers[run] = [marker(run), marker(uid)]
+
+    def view(self) -> dict:
+        return {"units": dict(self.units), "offline": dict(self.offline), "runs": dict(self.runs),
+                "markers": dict(self.markers)}
+
+
+def ev_line(ev: list) -> str:
+    kind, uid = ev[0], Engine.uid(ev[1])
+    if kind in ("connect", "uod"):
+        return "\t".join(["ev", kind, enc(uid), roles_wire(sorted(set(ev[2])))])
+    if kind in ("start", "stop"):
+        return "\t".join(["ev", kind, enc(uid), enc(ev[2])])
+    return "\t".join(["ev", "disc", enc(uid)])
+
+
+def probes_after(truth: Truth, rows: list[dict], user_sets) -> list[dict]:
+    """Every route x every unit that is or was connected / every stored run x every user-role set; every listing."""
+    out = []
+    unit_ids = list(truth.units) + list(truth.offline)
+    run_ids = list(truth.runs)
+    for i, row in enumerate(rows):
+        t = row["target"]
+        ids = unit_ids if t == "unit" else run_ids if t == "run" else [""] if t in ("unitsWithRecent", "unitsOnline", "runs") else []
+        for oid in ids:
+            for u in user_sets:
+                out.append({"route": i, "path": row["path"], "method": row["method"], "handler": row["handler"],
+                            "id": oid, "user": list(u)})
+    return out
+
+
+SCENARIOS = [
+    # roles set, a run comes and goes, reconnect with other roles, disconnect during a run, restored run stops,
+    # roles widened by a later UodInfo, a run replaced by another run
+    [["connect", "pc1", ["A"]], ["start", "pc1", "r1"], ["stop", "pc1", "r1"], ["disc", "pc1"],
+     ["connect", "pc1", ["B"]], ["start", "pc1", "r2"], ["disc", "pc1"], ["connect", "pc1", ["B"]],
+     ["stop", "pc1", "r2"], ["uod", "pc1", ["A", "B"]], ["start", "pc1", "r3"], ["start", "pc1", "r4"],
+     ["stop", "pc1", "r4"]],
+    # connected earlier with a role-free UOD, the UOD gets roles, reconnect
+    [["connect", "pc2", []], ["disc", "pc2"], ["connect", "pc2", ["A"]], ["start", "pc2", "r5"],
+     ["stop", "pc2", "r5"], ["disc", "pc2"]],
+    # two units
+    [["connect", "pc3", ["A"]], ["connect", "pc4", []], ["start", "pc3", "r6"], ["uod", "pc4", ["B"]],
+     ["stop", "pc3", "r6"], ["disc", "pc3"], ["start", "pc4", "r7"], ["connect", "pc3", ["A", "B"]],
+     ["stop", "pc4", "r7"], ["disc", "pc4"]],
+]
+
+
+def random_history(rng, roles, n: int, tag: str) -> list[list]:
+    labels = [f"{tag}a", f"{tag}b"]
+    online: dict[str, bool] = {}
+    runs = 0
+    out = []
+    for _ in range(n):
+        lab = rng.choice(labels[:rng.choice([1, 2])])
+        rs = sorted(set(rng.choice(roles) for _ in range(rng.randrange(0, 3))))
+        if not online.get(lab):
+            out.append(["connect", lab, rs])
+            online[lab] = True
+            continue
+        k = rng.random()
+        if k < 0.3:
+            runs += 1
+            out.append(["start", lab, f"{tag}run{runs}"])
+        elif k < 0.55:
+            out.append(["stop", lab, f"{tag}run{runs}"])
+        elif k < 0.75:
+            out.append(["disc", lab])
+            online[lab] = False
+        elif k < 0.9:
+            out.append(["uod", lab, rs])
+        else:
+            out.append(["connect", lab, rs])      # re-registration without a disconnect in between
+    return out
 
 
 def run(ctx: Check) -> int:
@@ -360,7 +605,12 @@ def run(ctx: Check) -> int:
                 "plus recent-engine rows of online units; every route that takes a unit/run x every object of its kind "
                 "(+ a non-existent id) x all 8 user-role sets; every listing x all 8 user-role sets; the LSP websocket "
                 "as initialize/didOpen/hover sessions. Thorough adds random worlds with odd role names (case, blank, "
-                "empty, non-ASCII) and 2-4 roles. Non-trivial = the object requires at least one role.")
+                "empty, non-ASCII) and 2-4 roles. Non-trivial = the object requires at least one role. Histories: the "
+                "world is produced by engine events through the real AggregatorMessageHandlers (register+UodInfo with "
+                "roles, run started / stopped / replaced, disconnect, reconnect with other roles, later UodInfo; three "
+                "fixed scenarios + random ones); after every event the aggregator's state (engine map, RecentEngines, "
+                "RecentRuns with their roles) is compared with the model and every route x every known unit / stored "
+                "run x every user-role set is probed against the roles of the unit's last UodInfo.")
     worlds = [(base_world(), subsets(["A", "B", "C"]), 1.0)]
     if ctx.tier == "thorough":      # the same, exhaustively, over four roles
         worlds.append((base_world(("A", "B", "C", "D")), subsets(["A", "B", "C", "D"]), 1.0))
@@ -384,7 +634,7 @@ def run(ctx: Check) -> int:
         before = app.snapshot(c["id"])
         status, text = app.request(rows[c["route"]], c["id"], c["user"])
         after = app.snapshot(c["id"])
-        fails.extend(oracle(app, rows, c, status, text, before, after))
+        fails.extend(oracle(rows, c, status, text, before, after, static_truth(c["world"])))
         return [canon(rows[c["route"]], status, text)]
 
     def nontrivial(c, out):
@@ -396,6 +646,47 @@ def run(ctx: Check) -> int:
         ctx.count(("lsp:" if rows[c["route"]]["router"] == "lsp" else "") + rows[c["route"]]["target"])
     if mo:
         ctx.selftest("requests", "Access", cases[:3000], lambda c: [line("reqmut", c)], mo[:3000])
+    # histories through the real message handlers, probed after every step
+    hist_roles = ["A", "B"] if ctx.tier == "quick" else ["A", "B", "C"]
+    hists = [{"kind": "history", "steps": sc, "roles": hist_roles} for sc in SCENARIOS]
+    for k in range(ctx.n(1, 30)):
+        hists.append({"kind": "history", "steps": random_history(rng, hist_roles, ctx.n(7, 10), f"h{k}"),
+                      "roles": hist_roles})
+    engine = Engine(app)
+
+    def hist_lines(c):
+        t = Truth()
+        out = []
+        for ev in c["steps"]:
+            t.apply(ev)
+            out.append(ev_line(ev))
+            for p in probes_after(t, rows, subsets(c["roles"])):
+                out.append("\t".join(["probe", str(p["route"]), enc(p["id"]), roles_wire(p["user"])]))
+        return out
+
+    def hist_impl(c):
+        app.set_world({"units": [], "recent": [], "runs": []})
+        current["world"] = None
+        t = Truth()
+        out = []
+        for k, ev in enumerate(c["steps"]):
+            engine.apply(ev)
+            t.apply(ev)
+            out.append(engine.state())
+            view = t.view()
+            for p in probes_after(t, rows, subsets(c["roles"])):
+                before = app.snapshot(p["id"])
+                status, text = app.request(rows[p["route"]], p["id"], p["user"])
+                after = app.snapshot(p["id"])
+                case = {"kind": "history", "steps": c["steps"][:k + 1], "probe": p, "route": p["route"],
+                        "id": p["id"], "user": p["user"]}
+                fails.extend(oracle(rows, case, status, text, before, after, view))
+                out.append(canon(rows[p["route"]], status, text))
+                ctx.count("history-probe:" + rows[p["route"]]["target"])
+            ctx.count("history-step:" + ev[0])
+        return out
+
+    ctx.correspond("histories", "Access", hists, hist_lines, hist_impl, impl_timeout=300)
     for f in fails:
         ctx.fail(f)
     ctx.exhaustive = True
@@ -419,10 +710,32 @@ def _search(ctx: Check) -> None:
 def replay(obj) -> int:
     from harness.translators import routes
     c = obj.get("case", {})
+    rows = routes.collect()
+    if c.get("kind") == "history":
+        app = App()
+        engine = Engine(app)
+        app.set_world({"units": [], "recent": [], "runs": []})
+        t = Truth()
+        for ev in c["steps"]:
+            engine.apply(ev)
+            t.apply(ev)
+            print("event", ev, "-> state", engine.state().replace("\t", "  |  "))
+        p = c["probe"]
+        idx = next((i for i, r in enumerate(rows) if r["path"] == p["path"] and r["method"] == p["method"]), p["route"])
+        p = dict(p, route=idx)
+        before = app.snapshot(p["id"])
+        status, text = app.request(rows[idx], p["id"], p["user"])
+        after = app.snapshot(p["id"])
+        print(f"{rows[idx]['method']} {rows[idx]['path']}  id={p['id']!r} user_roles={p['user']}")
+        print("required by the last UodInfo:", t.view()["units"], "offline:", t.view()["offline"], "runs:", t.view()["runs"])
+        print("status:", status, "body:", text[:600])
+        fs = oracle(rows, p, status, text, before, after, t.view())
+        for f in fs:
+            print("oracle:", f.key, "-", f.detail[:300])
+        return 1 if fs else 0
     if "route" not in c:
         print(json.dumps(obj, indent=1)[:3000])
         return 0
-    rows = routes.collect()
     # the route is looked up by path+method so that a replay survives re-ordering of the table
     idx = next((i for i, r in enumerate(rows) if r["path"] == c.get("path") and r["method"] == c.get("method")), c["route"])
     c = dict(c, route=idx)
@@ -434,7 +747,7 @@ def replay(obj) -> int:
     print(f"{rows[idx]['method']} {rows[idx]['path']}  id={c['id']!r} user_roles={c['user']}")
     print("status:", status, "body:", text[:600])
     print("unit state / rpc calls before -> after:", before, "->", after)
-    fs = oracle(app, rows, c, status, text, before, after)
+    fs = oracle(rows, c, status, text, before, after, static_truth(c["world"]))
     for f in fs:
         print("oracle:", f.key, "-", f.detail[:300])
     return 1 if fs else 0
